@@ -306,6 +306,9 @@ pub struct NetCfg {
     /// `set_activation(layer, activation)` calls made after the layers are added
     #[serde(default)]
     pub set_activations: Vec<(usize, Act)>,
+    /// gradient scaling function handed to `loopback`: 0 = 1/x, 1 = constant 1, 2 = 1/sqrt(x)
+    #[serde(default)]
+    pub loop_scale: u8,
 }
 
 impl NetCfg {
@@ -321,6 +324,7 @@ impl NetCfg {
             objective: Obj::MSE,
             clamp: None,
             set_activations: Vec::new(),
+            loop_scale: 0,
         }
     }
 
@@ -395,7 +399,12 @@ impl NetCfg {
             net.connect(*from, *to);
         }
         for (outof, into, iterations, inskips) in &self.loopbacks {
-            net.loopback(*outof, *into, *iterations, Arc::new(|x| 1.0 / x), *inskips);
+            let scale: tensor::Scale = match self.loop_scale {
+                1 => Arc::new(|_| 1.0),
+                2 => Arc::new(|x: f32| 1.0 / x.sqrt()),
+                _ => Arc::new(|x| 1.0 / x),
+            };
+            net.loopback(*outof, *into, *iterations, scale, *inskips);
         }
         net.set_accumulation(self.skip_acc.to_lib(), self.loop_acc.to_lib());
         if let Some(opt) = &self.optimizer {
